@@ -318,6 +318,30 @@ class Explorer:
         return total, (bound if ok else -1), levels
 
 
+def run_iterated(exp, top, time_cap, case_bounds, default_bound):
+    """Iterate the bound: everything with <= top-1 deviations first (cheap), then the full bound in the time that is
+    left.  If the cap cuts the second pass the lower levels are still complete and reported as such
+    (completed == top-1); executions of the lower levels run twice are counted in ``reexecuted``."""
+    n = len(exp.cases)
+    case_bounds = case_bounds or {}
+    if top < 2 or not time_cap:
+        return exp.run(top, time_cap=time_cap, case_bounds=case_bounds)
+    t0 = time.time()
+    lower = {i: min(case_bounds.get(i, default_bound), top - 1) for i in range(n)}
+    s1, c1, l1 = exp.run(top - 1, time_cap=time_cap, case_bounds=lower)
+    if c1 < 0:
+        return s1, c1, l1
+    left = max(30.0, time_cap - (time.time() - t0))
+    full = {i: case_bounds.get(i, default_bound) for i in range(n)}
+    s2, c2, l2 = exp.run(top, time_cap=left, case_bounds=full)
+    if c2 >= 0:
+        s2.reexecuted = s1.executions
+        return s2, c2, l2
+    s1.merge(s2)
+    s1.reexecuted = sum(x["executions"] for x in l2 if x["deviations"] < top)
+    return s1, top - 1, l1 + [dict(x, partial=True) for x in l2 if x["deviations"] >= top]
+
+
 def run_serial(module, cases, bound):
     """In-process exploration (debugging / replay)."""
     global _MODULE, _CASES
